@@ -349,7 +349,7 @@ run_deflate(struct scn *s)
                 } else if (badkind == 3)
                         z->level_buf_size = lbuf_size(s->level, 0) - 1;
                 if (c.eos && fed == (size_t) s->inlen)
-                        eos_set = 1;
+                        eos_set = c.eos; /* any non-zero value announces the end of the stream */
                 z->end_of_stream = eos_set;
                 z->flush = c.flush;
                 last_flush = c.flush;
